@@ -96,6 +96,12 @@ func (f changeFinder) changed() {
 func (f changeFinder) commentsFor(n *value) (before, after []*ast.Comment) {
 	pos, end := n.Pos(), n.End()
 	for _, cg := range n.Comments {
+		// A previous change may have deleted all comments of this group.
+		// An empty group has no position.
+		if len(cg.List) == 0 {
+			continue
+		}
+
 		if cg.End() <= pos {
 			before = append(before, cg.List...)
 		}
